@@ -356,7 +356,28 @@ pub fn run_c05(tier: Tier) -> i32 {
     let mut rep = Report::new("C05", tier, "model_checking");
     e1_common(&mut rep);
     let cfgs = dml_configs(tier, "C05", Monitors { invariants: true, ..Monitors::default() }, vec![], false, 0);
-    finish_e1_multi(cfgs, rep, "invariant monitor (strictly ascending key tuples, every cell valid for its column) on every state of the DML exploration, live and again after save + reopen. distinct_nontrivial = distinct states")
+    // keys whose text the database code page cannot represent: two different
+    // keys must not become one after saving
+    {
+        let t = Op::CreateTable { name: "U".into(), cols: vec![ColSpec::new("S", Ty::Str(8)).key(), ColSpec::new("N", Ty::I16).nullable()] };
+        let two = ins("U", vec![vec![s("\u{4e00}"), i(1)], vec![s("\u{4e01}"), i(2)]]);
+        let hists: Vec<Vec<Op>> = vec![
+            vec![Op::SetDbCodepage(1252), t.clone(), two.clone(), Op::Reopen],
+            vec![t.clone(), two.clone(), Op::SetDbCodepage(1252), Op::Reopen],
+            vec![Op::SetDbCodepage(932), t.clone(), ins("U", vec![vec![s("\u{e9}"), i(1)], vec![s("\u{e8}"), i(2)]]), Op::Reopen],
+            vec![Op::SetDbCodepage(1252), t.clone(), ins("U", vec![vec![s("\u{e9}"), i(1)], vec![s("\u{e8}"), i(2)]]), Op::Reopen],
+        ];
+        let lcfg = Config { alphabet: vec![], max_depth: 0, monitors: Monitors { invariants: true, ..Monitors::default() }, merge_audits: 0, nodedup_depth: 0, seed: None, setup: vec![], probes: vec![], stream_names: vec![], property: "C05", ptype: 0, wall_cap: Duration::from_secs(60) };
+        let fr = crate::e1::fresh(0);
+        for (hi, h) in hists.iter().enumerate() {
+            for mut v in crate::e1::linear_history_checks(&lcfg, &fr, h) {
+                v.signature = format!("keys-outside-the-code-page:history-{}:{}", hi + 1, v.signature);
+                rep.violations.push(v);
+            }
+        }
+        rep.set("code_page_key_histories", hists.len());
+    }
+    finish_e1_multi(cfgs, rep, "four histories with string keys that the database code page can / cannot represent; invariant monitor (strictly ascending key tuples, every cell valid for its column) on every state of the DML exploration, live and again after save + reopen. distinct_nontrivial = distinct states")
 }
 
 /// create_table on a package whose _Validation table already has rows for the
@@ -368,19 +389,26 @@ fn c04_stale_catalog_rows(rep: &mut Report) -> u64 {
     use crate::snapshot::snapshot;
     let vrow = |t: &str, c: &str| vec![s(t), s(c), s("N"), Val::Null, Val::Null, Val::Null, Val::Null, Val::Null, Val::Null, Val::Null];
     let create = Op::CreateTable { name: "New".into(), cols: vec![ColSpec::new("K", Ty::I16).key(), ColSpec::new("S", Ty::Str(8)).nullable().category("Identifier")] };
-    let variants: Vec<(&str, Vec<Vec<Val>>)> = vec![
-        ("first-column", vec![vrow("New", "K")]),
-        ("second-column", vec![vrow("New", "S")]),
-        ("both-columns", vec![vrow("New", "K"), vrow("New", "S")]),
-        ("another-column", vec![vrow("New", "Zz")]),
+    let greek = Op::CreateTable { name: "New".into(), cols: vec![ColSpec::new("K", Ty::I16).key(), ColSpec::new("S", Ty::Str(8)).nullable().enums(&["\u{3b1}", "\u{3b2}"])] };
+    let plain = create.clone();
+    // (label, state-building operations, the create_table under test)
+    let variants: Vec<(&str, Vec<Op>, Op)> = vec![
+        ("first-column", vec![ins("_Validation", vec![vrow("New", "K")])], plain.clone()),
+        ("second-column", vec![ins("_Validation", vec![vrow("New", "S")])], plain.clone()),
+        ("both-columns", vec![ins("_Validation", vec![vrow("New", "K"), vrow("New", "S")])], plain.clone()),
+        ("another-column", vec![ins("_Validation", vec![vrow("New", "Zz")])], plain.clone()),
+        // catalog strings that the database code page cannot represent
+        ("enum-values-outside-the-code-page", vec![Op::SetDbCodepage(1252)], greek.clone()),
+        ("enum-values-outside-the-code-page-932", vec![Op::SetDbCodepage(932), ins("T1", vec![vec![i(2), s("\u{3042}")]])], Op::CreateTable { name: "New".into(), cols: vec![ColSpec::new("K", Ty::I16).key(), ColSpec::new("S", Ty::Str(8)).nullable().enums(&["\u{e9}", "\u{1F600}"])] }),
     ];
     let mut n = 0u64;
-    for (label, stale) in &variants {
+    for (label, state_ops, create) in &variants {
         for pre_reopen in [false, true] {
             n += 1;
             let doc = serde_json::json!({"kind":"c04-stale","variant":label,"reopen_first":pre_reopen});
             let mut h = Harness::create(0).expect("create");
-            let mut setup = vec![t1(), ins("T1", vec![vec![i(1), s("a")]]), ins("_Validation", stale.clone())];
+            let mut setup = vec![t1(), ins("T1", vec![vec![i(1), s("a")]])];
+            setup.extend(state_ops.iter().cloned());
             if pre_reopen {
                 setup.push(Op::Reopen);
             }
@@ -401,7 +429,7 @@ fn c04_stale_catalog_rows(rep: &mut Report) -> u64 {
                     continue;
                 }
             };
-            match h.apply(&create) {
+            match h.apply(create) {
                 Outcome::Panic(p) => rep.violation(format!("stale-validation-rows:{}:panic:{}", label, crate::report::panic_site(&p)), format!("create_table on a package with leftover _Validation rows ({}) panicked: {}", label, p), doc),
                 Outcome::Err(e) => {
                     if h.pkg.is_none() {
@@ -444,6 +472,11 @@ fn c04_stale_catalog_rows(rep: &mut Report) -> u64 {
                         continue;
                     }
                     let live = live.unwrap();
+                    if label.starts_with("enum-values") {
+                        // whether unrepresentable text may be accepted at all is
+                        // C06's question, not this check's
+                        continue;
+                    }
                     match h.close_into_inner().and_then(Harness::open) {
                         Err(e) => rep.violation(format!("stale-validation-rows:{}:accepted-then-unreadable", label), e, doc),
                         Ok(mut h2) => {
@@ -548,6 +581,45 @@ pub fn run_c01(tier: Tier) -> i32 {
             }
         }
         rep.set("internal_stream_name_histories", hists.len());
+    }
+    // rows of the catalog tables changed through the query interface: what
+    // the package shows before closing must be what it shows after reopening
+    {
+        let where_col = |t: &str, n: i32| Some(E::bin(Bin::And, eq("Table", s(t)), eq("Number", i(n))));
+        let hists: Vec<Vec<Op>> = vec![
+            vec![t1(), ins("T1", vec![vec![i(1), s("a")]]), Op::Update { table: "_Columns".into(), sets: vec![("Name".into(), s("Renamed"))], cond: where_col("T1", 2) }],
+            vec![t1(), ins("T1", vec![vec![i(1), s("a")]]), Op::Delete { table: "_Tables".into(), cond: Some(eq("Name", s("T1"))) }],
+            vec![t1(), ins("_Validation", vec![vec![s("T1"), s("Zz"), s("N"), Val::Null, Val::Null, Val::Null, Val::Null, Val::Null, Val::Null, Val::Null]])],
+            vec![t1(), Op::Update { table: "_Validation".into(), sets: vec![("Nullable".into(), s("N"))], cond: Some(E::bin(Bin::And, eq("Table", s("T1")), eq("Column", s("S")))) }],
+        ];
+        for (hi, h) in hists.iter().enumerate() {
+            use crate::ops::Harness;
+            let doc = serde_json::json!({"kind":"c01-catalog-dml","history": h.iter().map(|o| o.show()).collect::<Vec<_>>()});
+            let mut hs = Harness::create(0).expect("create");
+            if h.iter().any(|op| !hs.apply(op).is_ok()) || hs.pkg.is_none() {
+                continue; // the library may refuse queries on its catalog: nothing to compare then
+            }
+            let pre = match crate::snapshot::snapshot(hs.p()) {
+                Ok(s) => s,
+                Err(p) => {
+                    rep.violation(format!("catalog-edited-through-queries:history-{}:panic-reading", hi + 1), p, doc);
+                    continue;
+                }
+            };
+            let desc = h.iter().map(|o| o.show()).collect::<Vec<_>>().join(" ; ");
+            match hs.close_into_inner().and_then(Harness::open) {
+                Err(e) => rep.violation(format!("catalog-edited-through-queries:history-{}:reopen-fails", hi + 1), format!("after {} (all Ok) the saved package does not reopen: {}", desc, e), doc),
+                Ok(mut h2) => match crate::snapshot::snapshot(h2.p()) {
+                    Err(p) => rep.violation(format!("catalog-edited-through-queries:history-{}:panic-reading", hi + 1), p, doc),
+                    Ok(post) => {
+                        if let Some(d) = pre.normalized().diff(&post.normalized()) {
+                            rep.violation(format!("catalog-edited-through-queries:history-{}:differs-after-reopen", hi + 1), format!("after {} (all Ok): before closing vs after reopening: {}", desc, d), doc);
+                        }
+                    }
+                },
+            }
+        }
+        rep.set("catalog_dml_histories", hists.len());
     }
     rep.set("configuration_product_histories", ncfg);
     rep.set("configuration_product_closes", ncfg * 3);
@@ -661,6 +733,39 @@ pub fn run_c10_e1(tier: Tier, rep: &mut Report) -> crate::e1::Stats {
     };
     let st = explore(&cfg, rep);
     fill_report(&cfg, &st, rep);
+    // second exploration: summary edits interleaved with flushes of the same
+    // package object and with table / database-code-page changes, in either
+    // order inside one save window
+    {
+        use SumOp::*;
+        let mut alphabet: Vec<Op> = vec![
+            Op::Summary(SetAuthor("Zo\u{eb}".into())),
+            Op::Summary(SetTitle("T".into())),
+            Op::Summary(ClearAuthor),
+            Op::Summary(SetCodepage(1252)),
+            Op::Summary(SetCodepage(65001)),
+            Op::Summary(SetCreationTicks(1_234_567_890_123)),
+            Op::Flush,
+            Op::Reopen,
+            t1(),
+            ins("T1", vec![vec![i(1), s("a")]]),
+            Op::SetDbCodepage(1252),
+        ];
+        if tier.thorough() {
+            alphabet.push(Op::Summary(SetComments("c\u{e9}".into())));
+            alphabet.push(Op::Summary(SetArch("x64".into())));
+            alphabet.push(del("T1", None));
+            alphabet.push(Op::DropTable { name: "T1".into() });
+        }
+        let cfg2 = Config { alphabet, max_depth: if tier.thorough() { 6 } else { 5 }, wall_cap: Duration::from_secs(if tier.thorough() { 600 } else { 45 }), ..cfg };
+        let st2 = explore(&cfg2, rep);
+        rep.set("interleaved_states", st2.states);
+        rep.set("interleaved_transitions", st2.transitions);
+        rep.set("interleaved_depth", st2.max_depth_completed);
+        rep.add("states", st2.states as i64);
+        rep.add("transitions", st2.transitions as i64);
+        rep.add("traces_validated_against_impl", st2.transitions as i64);
+    }
     st
 }
 
@@ -682,6 +787,8 @@ pub fn stream_names(tier: Tier) -> Vec<String> {
         "\u{c9}".into(),
         "T".into(),
         "\u{4840}T".into(),
+        "\u{4840}_StringPool".into(),
+        "\u{4840}_Tables".into(),
         ":".into(),
         "\u{5}SummaryInformation".into(),
     ];
